@@ -178,4 +178,113 @@ Proof.
   assert (E : m1 = m2) by (eapply (feed_all_chunking_independent 50 50 fuel fuel inj cs1 cs2 m); eassumption).
   subst m2. rewrite T1 in T2. split; congruence.
 Qed.
+
+(* ---------------------------------------------------------------- the byte order mark
+   With discard_bom set, the first feed that sees input looks at the first character of the stream, drops it if it
+   is U+FEFF, and clears the flag.  On a machine with an empty queue this turns the run into a run with the flag clear:
+   from the same machine if the stream does not start with U+FEFF, from the machine that has consumed one character
+   and with the mark cut off the first chunk if it does.  (Not covered: a first chunk that consists of the mark alone.) *)
+Definition clear_bom (m : M) : M := upd (fun x => x <| discard_bom := false |>) m.
+Definition strip_first (cs : list (list N)) : list (list N) :=
+  match cs with (c :: c') :: rest => c' :: rest | _ => cs end.
+
+Lemma feed_bom_other fuel (m : M) c q : discard_bom (mc m) = true -> mq m = c :: q -> (c =? BOM) = false ->
+  feedF fuel m = feedF fuel (clear_bom m).
+Proof.
+  intros HB Hq Hc. unfold feed. destruct m as [cf qq o k]. cbn in *. subst qq. cbn. rewrite HB, Hc.
+  destruct cf; reflexivity.
+Qed.
+Lemma feed_bom_mark fuel (m : M) d q : discard_bom (mc m) = true -> mq m = BOM :: d :: q ->
+  feedF fuel m = feedF fuel (took 1 (clear_bom (m <| mq := d :: q |>))).
+Proof.
+  intros HB Hq. unfold feed. destruct m as [cf qq o k]. cbn in *. subst qq. cbn. rewrite HB.
+  replace (BOM =? BOM) with true by reflexivity. destruct cf; reflexivity.
+Qed.
+
+Lemma feed_loop_first n fuel inj (m m2 : M) log : feedF fuel m = feedF fuel m2 ->
+  feed_loopF (Datatypes.S n) fuel inj m log = feed_loopF (Datatypes.S n) fuel inj m2 log.
+Proof. intros H. cbn [feed_loop]. rewrite H. reflexivity. Qed.
+
+Lemma feed_all_bom_other n fuel inj c d rest (m : M) log :
+  mq m = [] -> discard_bom (mc m) = true -> (c =? BOM) = false ->
+  feed_all (Datatypes.S n) fuel inj ((c :: d) :: rest) m log = feed_all (Datatypes.S n) fuel inj ((c :: d) :: rest) (clear_bom m) log.
+Proof.
+  intros Hq HB Hc. cbn [feed_all].
+  rewrite (feed_loop_first n fuel inj (m <| mq ::= (fun q => q ++ c :: d) |>) ((clear_bom m) <| mq ::= (fun q => q ++ c :: d) |>)).
+  - reflexivity.
+  - rewrite (feed_bom_other fuel _ c d); [destruct m; reflexivity|destruct m; exact HB| |exact Hc].
+    destruct m as [cf q o k]; cbn in *; subst q; reflexivity.
+Qed.
+
+Lemma feed_all_bom_mark n fuel inj d e rest (m : M) log :
+  mq m = [] -> discard_bom (mc m) = true ->
+  feed_all (Datatypes.S n) fuel inj ((BOM :: d :: e) :: rest) m log =
+  feed_all (Datatypes.S n) fuel inj ((d :: e) :: rest) (took 1 (clear_bom m)) log.
+Proof.
+  intros Hq HB. cbn [feed_all].
+  rewrite (feed_loop_first n fuel inj (m <| mq ::= (fun q => q ++ BOM :: d :: e) |>)
+                           ((took 1 (clear_bom m)) <| mq ::= (fun q => q ++ d :: e) |>)).
+  - reflexivity.
+  - rewrite (feed_bom_mark fuel _ d e); [|destruct m; exact HB|destruct m as [cf q o k]; cbn in *; subst q; reflexivity].
+    destruct m as [cf q o k]; cbn in *; subst q; reflexivity.
+Qed.
+
+Hypothesis Hinv_clear : forall (m : M), Inv m -> Inv (clear_bom m).
+Hypothesis Hinv_took : forall n (m : M), Inv m -> Inv (took n m).
+
+(* chunk independence of the executable feed loops INCLUDING the byte order mark *)
+Theorem feed_all_chunking_independent_bom n1 n2 fuel1 fuel2 inj cs1 cs2 (m m1 m2 : M) l1 l2 :
+  Inv m -> mq m = [] ->
+  all_nonempty cs1 -> all_nonempty cs2 -> cs1 <> [] -> cs2 <> [] -> concat cs1 = concat cs2 ->
+  hd [] cs1 <> [BOM] -> hd [] cs2 <> [BOM] ->
+  feed_all (Datatypes.S n1) fuel1 inj cs1 m [] = (m1, l1) -> all_done l1 ->
+  feed_all (Datatypes.S n2) fuel2 inj cs2 m [] = (m2, l2) -> all_done l2 ->
+  m1 = m2.
+Proof.
+  intros HI Hq N1 N2 E1 E2 HC B1 B2 F1 D1 F2 D2.
+  destruct (discard_bom (mc m)) eqn:HB.
+  2:{ eapply (feed_all_chunking_independent (Datatypes.S n1) (Datatypes.S n2) fuel1 fuel2 inj cs1 cs2 m); eassumption. }
+  destruct cs1 as [|[|a c1'] r1]; [contradiction|destruct N1; contradiction|].
+  destruct cs2 as [|[|b c2'] r2]; [contradiction|destruct N2; contradiction|].
+  assert (Hab : a = b) by (cbn in HC; injection HC as Hh _; exact Hh).
+  subst b.
+  destruct (a =? BOM) eqn:Ea.
+  - apply N.eqb_eq in Ea. subst a.
+    destruct c1' as [|d1 e1]; [exfalso; apply B1; reflexivity|].
+    destruct c2' as [|d2 e2]; [exfalso; apply B2; reflexivity|].
+    rewrite feed_all_bom_mark in F1, F2 by assumption.
+    eapply (feed_all_chunking_independent (Datatypes.S n1) (Datatypes.S n2) fuel1 fuel2 inj
+              ((d1 :: e1) :: r1) ((d2 :: e2) :: r2) (took 1 (clear_bom m))); try eassumption.
+    + apply Hinv_took, Hinv_clear. exact HI.
+    + destruct m as [cf q o k]; destruct cf; reflexivity.
+    + destruct N1 as [_ N1]. split; [discriminate|exact N1].
+    + destruct N2 as [_ N2]. split; [discriminate|exact N2].
+    + discriminate.
+    + discriminate.
+    + cbn in HC |- *. injection HC as HC1 HC2. rewrite HC1, HC2. reflexivity.
+  - rewrite feed_all_bom_other in F1, F2 by assumption.
+    eapply (feed_all_chunking_independent (Datatypes.S n1) (Datatypes.S n2) fuel1 fuel2 inj
+              ((a :: c1') :: r1) ((a :: c2') :: r2) (clear_bom m)); try eassumption.
+    + apply Hinv_clear. exact HI.
+    + destruct m as [cf q o k]; destruct cf; reflexivity.
+Qed.
+
+(* ... and through the complete driver, end() included *)
+Theorem drive_chunking_independent_bom fuel inj cs1 cs2 (m : M) :
+  Inv m -> mq m = [] ->
+  all_nonempty cs1 -> all_nonempty cs2 -> cs1 <> [] -> cs2 <> [] -> concat cs1 = concat cs2 ->
+  hd [] cs1 <> [BOM] -> hd [] cs2 <> [BOM] ->
+  all_done (tl (snd (driveF fuel inj cs1 m []))) -> all_done (tl (snd (driveF fuel inj cs2 m []))) ->
+  fst (driveF fuel inj cs1 m []) = fst (driveF fuel inj cs2 m []) /\
+  hd SSuspend (snd (driveF fuel inj cs1 m [])) = hd SSuspend (snd (driveF fuel inj cs2 m [])).
+Proof.
+  intros HI Hq N1 N2 E1 E2 HC B1 B2. rewrite !drive_is_feed_all.
+  change 50%nat with (Datatypes.S 49).
+  destruct (feed_all (Datatypes.S 49) fuel inj cs1 m []) as [m1 l1] eqn:F1.
+  destruct (feed_all (Datatypes.S 49) fuel inj cs2 m []) as [m2 l2] eqn:F2.
+  destruct (tok_endF fuel m1) as [e1 r1] eqn:T1. destruct (tok_endF fuel m2) as [e2 r2] eqn:T2.
+  cbn [snd fst tl hd]. intros D1 D2.
+  assert (E : m1 = m2) by (eapply (feed_all_chunking_independent_bom 49 49 fuel fuel inj cs1 cs2 m); eassumption).
+  subst m2. rewrite T1 in T2. split; congruence.
+Qed.
 End Exec.
